@@ -291,9 +291,13 @@ def run_case(case):
         gc = am.shift_time(gt, g["coordinates"], dt)
         hc = am.shift_time(ht, h["coordinates"], dt)
         gk, hk = (gt, repr(gc)), (ht, repr(hc))
-        G, H = _real(gt, gc, gk), _real(ht, hc, hk)
+        # fresh objects for the calls under test (the model keeps its own cached objects): implementation state keyed on
+        # object identity then sees identities being recycled, as in a long-running process
+        G, H = mkgeom(gt, gc), mkgeom(ht, hc)
         ra = _call(G, H, cfg)
+        G, H = mkgeom(gt, gc), mkgeom(ht, hc)
         rb = _call(H, G, cfg)
+        del G, H
         calls += 2
         pg = _prepared(gt, gc, gk, tb, fb)
         ph = _prepared(ht, hc, hk, tb, fb)
